@@ -298,6 +298,36 @@ impl Scheduler {
         }
     }
 
+    /// Build the execution graph and the network addressing exactly as `build_all` does, without
+    /// spawning any worker, and return it in a canonical (sorted) form.
+    #[cfg(feature = "verif")]
+    pub(crate) fn verif_graph(mut self) -> crate::verif::GraphDump {
+        self.build_execution_graph();
+        self.network.build();
+        let mut blocks = vec![];
+        for (id, info) in self.block_info.iter() {
+            let mut replicas: Vec<(Coord, CoordUInt)> =
+                info.global_ids.iter().map(|(c, g)| (*c, *g)).collect();
+            replicas.sort();
+            let mut per_host: Vec<(HostId, Vec<Coord>)> =
+                info.replicas.iter().map(|(h, v)| (*h, v.clone())).collect();
+            per_host.sort();
+            blocks.push(crate::verif::BlockDump {
+                block_id: *id,
+                replicas,
+                per_host,
+                is_only_one_strategy: info.is_only_one_strategy,
+            });
+        }
+        blocks.sort_by_key(|b| b.block_id);
+        let (links, addresses) = self.network.verif_dump();
+        crate::verif::GraphDump {
+            blocks,
+            links,
+            addresses,
+        }
+    }
+
     fn log_tracing_data(structures: Vec<(Coord, BlockStructure)>, profilers: Vec<ProfilerResult>) {
         let data = TracingData {
             structures,
